@@ -60,7 +60,9 @@ def run_kani_jobs(res, jobs, note=None, fallback=None):
             results += r2
     by = {(r["cfg"], r["harness"]): r for r in results}
     res.extra.setdefault("kani_build_s", {}).update(build_s)
-    for r in results:
+    failing = sorted([r for r in results if r["outcome"] == "FAIL"], key=lambda r: r.get("wall_s") or 1e9)
+    replay_budget = {id(r) for r in failing[:int(os.environ.get("VERIF_MAX_REPLAYS", "2"))]}
+    for r in sorted(results, key=lambda r: (r["outcome"] == "FAIL", r.get("wall_s") or 0)):
         st = r.get("stats", {})
         item = {"engine": "kani", "harness": r["harness"], "cfg": r["cfg"], "outcome": r["outcome"], "verification_s": st.get("verification_s"),
                 "cbmc_checks": st.get("checks"), "cbmc_checks_failed": st.get("checks_failed"),
@@ -100,7 +102,12 @@ def run_kani_jobs(res, jobs, note=None, fallback=None):
                 item["known_finding"] = e["id"]
                 res.nontrivial += 1
                 continue
-        # counter-example extraction + native replay
+        # counter-example extraction + native replay (for the cheapest failing harnesses; the others are listed as failing)
+        if id(r) not in replay_budget and any(v["replay"] for v in res.violations):
+            item["not_replayed"] = "failed as well; counter-example extraction limited to the cheapest failing harnesses"
+            res.extra.setdefault("also_failing", []).append({"harness": r["harness"], "cfg": r["cfg"], "failed_checks": descs})
+            log("  FAIL   %s %s (not replayed: a violation of this property is already reproduced)" % (key, descs))
+            continue
         log("  FAIL   %s %s -> extracting counter-example" % (key, descs))
         pb = kanirun.run_harness(r["cfg"], r["harness"], timeout=max(600, 2 * int(r.get("wall_s", 300))), playback=True)
         tests = [t for t in pb.get("playback", []) if t["kind"] != "cover"]
